@@ -67,6 +67,17 @@ CHECKS = {
              "(parser generality is C03's).",
         technique="TLA+ spec (FmtShared) + TLC exhaustive enums, replay as real enums (text / compile verdict)",
         design="4 (C07)"),
+    "C04": dict(
+        text="TLC model-checks FmtBounds.tla (the property's rule - a bound per placeholder that refers to a field directly, "
+             "by position, through a bare-identifier argument or alias; implicit delegation; nothing for skipped, unused or "
+             "expression-only fields - vs the transcription of bounded_types/generate_bounds of display.rs and debug.rs) over "
+             "attribute levels x parameter assignments x reference kinds; each case's real where-clause (in-process expansion) "
+             "is compared as a set of obligations, and each case is compiled with the real derive: generic impl without user "
+             "bounds (sufficiency) and `S<..NoFmt..>: Trait` for unformatted parameters (non-excess).",
+        note="field types T, &'static T, W<T>, i32; <= 2 fields; <= 1 (quick) / 2 (thorough) placeholders; `bound(...)` "
+             "predicates are covered by C17's synonym checks, not here; one recorded finding (static-ref shadow).",
+        technique="TLA+ spec (FmtBounds) + TLC exhaustive cases, replay: where-clause sets in-process + rustc trait resolution",
+        design="4 (C04)"),
 }
 
 NOT_YET = {}
